@@ -908,8 +908,9 @@ class MyPyAstVisitor:
             default_is_none = False
 
             # Get type information for parameter
-            if mypy_type is None:  # pragma: no cover
-                raise ValueError("Argument has no type.")
+            if mypy_type is None:
+                # Mypy does not analyse code that it considers unreachable, e.g. after a platform check that raises
+                pass
             elif isinstance(mypy_type, mp_types.AnyType) and not has_correct_type_of_any(mypy_type.type_of_any):
                 # We try to infer the type through the default value later, if possible
                 pass
